@@ -35,3 +35,57 @@ func TestDbgGen(t *testing.T) {
 		}
 	}
 }
+
+// TestDbgEdge counts, over generated worlds of a property, how often a
+// conversion is decided (executed or rejected) exactly at an activation height.
+func TestDbgEdge(t *testing.T) {
+	c := registry[os.Getenv("P")]
+	n, _ := strconv.Atoi(os.Getenv("N"))
+	act := os.Getenv("ACT")
+	in, hit := 0, 0
+	for i := 0; i < n; i++ {
+		seed := subSeed(1, os.Getenv("P"), i)
+		sc, err := c.Gen(seed, "quick")
+		if err != nil {
+			t.Fatal(err)
+		}
+		w, _ := buildWorld(sc)
+		a := w.Spec.Config.Act[act]
+		if a <= w.Spec.First || a > w.Tip() {
+			continue
+		}
+		in++
+		l := model.New(w, model.Options{})
+		for l.Height < w.Tip() {
+			l.Step()
+		}
+		k := 0
+		for _, f := range l.Fates {
+			if f.Status == -3 && f.Height+1 == a {
+				k++
+			}
+		}
+		if k == 0 {
+			bi := int(a - 1 - w.Spec.First)
+			cnt := map[int64]int{}
+			npf := 0
+			for _, tx := range w.Spec.Blocks[bi].Tx {
+				for _, p := range tx.Parts {
+					if p.Conv == model.PFCT {
+						npf++
+					}
+				}
+			}
+			for _, f := range l.Fates {
+				if f.Height+1 == a {
+					cnt[f.Status]++
+				}
+			}
+			fmt.Fprintf(os.Stderr, "  seed %d: A=%d first=%d block A-1 has %d tx, %d into pFCT; fates of entries at A-1: %v; rated(A)=%v rated(A-1)=%v\n", seed, a, w.Spec.First, len(w.Spec.Blocks[bi].Tx), npf, cnt, l.Results[a].Rated, l.Results[a-1].Rated)
+		}
+		if k > 0 {
+			hit++
+		}
+	}
+	fmt.Fprintf(os.Stderr, "%s: %d of %d worlds contain %s; %d of them have a conversion into pFCT submitted at A-1\n", os.Getenv("P"), in, n, act, hit)
+}
